@@ -52,6 +52,15 @@ pub trait Dm { fn dm(&self) -> u64; }
 #[cglue_trait]
 pub trait Dx { fn dx(&self) -> u64; }
 cglue_trait_group!(Dg, Dm, { Dx });
+// a trait that lends a wrapped object from `&self`: its objects carry real temporary storage
+// (a Cell), so they are never Sync, whatever the handle
+#[cglue_trait]
+pub trait Dr {
+    #[wrap_with_obj_ref(Dm)]
+    type Sub: Dm + 'static;
+    fn dr_sub(&self) -> &Self::Sub;
+}
+cglue_trait_group!(Dh, Dr, { Dx });
 macro_rules! imp { ($t:ty) => { impl Dm for $t { fn dm(&self) -> u64 { 1 } } impl Dx for $t { fn dx(&self) -> u64 { 2 } } cglue_impl_group!($t, Dg, { Dx }); }; }
 imp!(PSS); imp!(PSn); imp!(PnS); imp!(Pnn);
 
@@ -126,7 +135,9 @@ fn main() {
                         return Err(Fail::new("harness", format!("harness model out of date: {} converts to {:?}, the matrix states {}", r.rule, r.target_actual, r.target_stated)));
                     }
                     if tgt && !src {
-                        let key = format!("C09:{}:{}", r.handle, marker);
+                        // objects with temporary storage are not Sync on any handle: a Sync cell
+                        // failing there is not the handle's known weakness
+                        let key = if r.rule.contains("rettmp") && marker == "Sync" { format!("C09:{}:{}:rettmp", r.handle, marker) } else { format!("C09:{}:{}", r.handle, marker) };
                         if !ctx.known(&key) {
                             return Err(Fail::new(key, format!("rule {} with a payload that is {}: the handle is not {marker} but its opaque form {} is", r.rule, r.payload, r.target_stated)));
                         }
@@ -138,7 +149,7 @@ fn main() {
             });
         }
     }
-    let code = ctx.finish("every opaque-conversion rule (shared/mutable reference, CBox, CSliceBox, CArc, CArcSome, Fwd over each, PhantomData, CGlueObjContainer, generated single-trait object, generated group, its cast (With) variants) x instance handle kind x context (none / CArc) x payload in {Send,!Send}x{Sync,!Sync} x marker in {Send,Sync}: booleans `X: Marker` are computed on concrete types with the inherent-const-shadows-trait-const trick; oracle: convertible and marker(opaque form) implies marker(handle). Plus the smart pointers themselves (CBox, CSliceBox, CArc, CArcSome, and Fwd over &T / &mut T / Box / Rc / Arc) against the std handle each is built from (Box, Box<[T]>, Option<Arc>, Arc, the forwarded handle itself): marker(smart pointer) implies marker(std handle). Non-trivial = the payload lacks the marker", &["the opaque target type of each rule is stated in the matrix and compared with type_name of the real associated type"], true);
+    let code = ctx.finish("every opaque-conversion rule (shared/mutable reference, CBox, CSliceBox, CArc, CArcSome, Fwd over each, PhantomData, CGlueObjContainer, generated single-trait object, generated group, its cast (With) variants, the same for a trait with real temporary-return storage) x instance handle kind x context (none / CArc) x payload in {Send,!Send}x{Sync,!Sync} x marker in {Send,Sync}: booleans `X: Marker` are computed on concrete types with the inherent-const-shadows-trait-const trick; oracle: convertible and marker(opaque form) implies marker(handle). Plus the smart pointers themselves (CBox, CSliceBox, CArc, CArcSome, and Fwd over &T / &mut T / Box / Rc / Arc) against the std handle each is built from (Box, Box<[T]>, Option<Arc>, Arc, the forwarded handle itself): marker(smart pointer) implies marker(std handle). Non-trivial = the payload lacks the marker", &["the opaque target type of each rule is stated in the matrix and compared with type_name of the real associated type"], true);
     std::process::exit(code);
 }
 """
@@ -172,6 +183,8 @@ def make():
                 rows.append((f"object<{h},{cn}>", h, pn, hty, f"DmBase<'static, {src}, {ctx}>", f"DmBase<'static, {tgt}, {ctx}>"))
                 rows.append((f"group<{h},{cn}>", h, pn, hty, f"Dg<'static, {src}, {ctx}>", f"Dg<'static, {tgt}, {ctx}>"))
                 rows.append((f"group-container<{h},{cn}>", h, pn, hty, f"DgContainer<{src}, {ctx}>", f"DgContainer<{tgt}, {ctx}>"))
+                rows.append((f"object-rettmp<{h},{cn}>", h, pn, hty, f"DrBase<'static, {src}, {ctx}>", f"DrBase<'static, {tgt}, {ctx}>"))
+                rows.append((f"group-rettmp<{h},{cn}>", h, pn, hty, f"Dh<'static, {src}, {ctx}>", f"Dh<'static, {tgt}, {ctx}>"))
     wrows = []
     for (pn, P, _, _) in PAYLOADS:
         for (name, std, wr) in [
